@@ -7,6 +7,7 @@ spelled out, a value passed through a temporary).  Every rewrite that still type
 silent; a report on one of them is a false alarm of the checker (a rule that matches a spelling, not a meaning)."""
 import json
 import os
+import shutil
 import re
 import sys
 from concurrent.futures import ThreadPoolExecutor
@@ -123,6 +124,9 @@ def main():
                 print('ALARM %s:%d %s | %s -> %s | %s' % (res['file'], res['line'], res['kind'], res['old'][:60],
                                                           res['new'][:70], {k: (v['rc'], v['rules'][:2]) for k, v in res['fired'].items()}), flush=True)
     print('done: %d rewrites, %d alarms' % (n, alarms), flush=True)
+    import glob
+    for d in glob.glob(os.path.join(ms.VERIF, '.work', 'scratch', 'sweep*')) + glob.glob(os.path.join(ms.VERIF, '.work', 'scratch', 'tgt-sweep*')):
+        shutil.rmtree(d, ignore_errors=True)     # scratch copies and their build output
 
 
 if __name__ == '__main__':
